@@ -376,7 +376,101 @@ def check_c12(chk, rng):
                             "inputs sampled at selection time then live; distinct = distinct scenario text")
 
 
-CHECKS = {"C10": check_c10, "C12": check_c12}
+# ------------------------------------------------------------------------------------------------ C11 reduce
+def check_c11(chk, rng):
+    quick = chk.tier == "quick"
+    nscn = 300 if quick else 5000
+    hists, scns = [], []
+    for s in range(nscn):
+        big = s % 6 == 0
+        nk = rng.choice([8, 12, 20]) if big else rng.choice([2, 3, 5])
+        horizon = rng.choice([10, 14]) if big else rng.choice([5, 7, 9])
+        comb = rng.choice(["add", "add", "min", "max", "gadd", "nadd"])
+        zero = rng.choice([None, None, 0, 100, -7])
+        present, ops = {}, []
+        for t in range(1, horizon + 1):
+            if rng.random() < 0.15:
+                continue
+            cyc, touched = [], set()
+            phase = rng.random()
+            for _ in range(rng.randint(1, 6 if big else 3)):
+                k = rng.randint(1, nk)
+                if k in touched:
+                    continue
+                touched.add(k)
+                # grow, churn, shrink to empty, regrow
+                remove_p = 0.15 if phase < 0.5 else 0.6
+                if k in present and rng.random() < remove_p:
+                    cyc.append([k])
+                    del present[k]
+                else:
+                    v = rng.choice([1, 2, 3, 5, 8, -4])
+                    cyc.append([k, v])
+                    present[k] = v
+            if cyc:
+                ops.append([t, cyc])
+        if not ops:
+            continue
+        hid = len(hists) + 1
+        hists.append({"id": hid, "comb": {"gadd": "add", "nadd": "add"}.get(comb, comb), "zero": -999999 if zero is None else zero, "ops": ops})
+        script = ";".join("%d:%s" % (t, ",".join(("%d=%d" % (o[0], o[1])) if len(o) == 2 else ("-%d" % o[0]) for o in cyc)) for t, cyc in ops)
+        scns.append("\n".join(["scn red%d" % hid, "opt start=1 end=%d" % (horizon + 1), "graph root", "n 1 dsrc script=" + script,
+                               "n 2 reduce in=1 comb=%s%s" % (comb, "" if zero is None else " zero=%d" % zero), "n 3 rrec in=2,1", "endgraph", "run"]))
+    d = hg.outdir("_work")
+    path = os.path.join(d, "hist-c11-%d.json" % os.getpid())
+    json.dump(hists, open(path, "w"))
+    res = hg.tlc("Reduce", "Reduce.cfg", env={"HIST_FILE": path}, timeout=1800, metatag="c11")
+    os.unlink(path)
+    if res.violation:
+        raise hg.MachineryError("Reduce.tla violates its own invariants:\n" + res.violation)
+    chk.add_tlc(res, "fold")
+    preds = {p["id"]: p["out"] for p in hg.printed_json(res, "RED")}
+    traces = hg.run_driver("engine", scns)
+    for h, scn, tr in zip(hists, scns, traces):
+        chk.count({"scn": scn})
+        if isinstance(tr, dict):
+            chk.violation("crash", "driver crashed/hung: %s" % json.dumps(tr)[:300], scn)
+            continue
+        ret = [e for e in tr if e["e"] == "ret"]
+        if any(e["e"] in ("wirefail", "harnessfail") for e in tr) or not ret or ret[0]["ok"] != 1:
+            chk.violation("run-failed", "reduce scenario did not run to completion: %s" % [e for e in tr if e["e"] in ("wirefail", "harnessfail", "ret")], scn)
+            continue
+        want = {t: (ok, v) for t, ok, v in preds[h["id"]]}
+        first = min(want)
+        for e in tr:
+            if e["e"] != "rrec":
+                continue
+            t = e["t"]
+            if t < first:
+                # before the collection first ticks the result is either not there yet or already the zero
+                if e["ok"] == 1 and h["zero"] != -999999 and e["v"] != h["zero"]:
+                    chk.violation("reduce-zero", "result %d before any element, zero is %d" % (e["v"], h["zero"]), scn)
+                    break
+                if e["ok"] == 1 and h["zero"] == -999999:
+                    chk.violation("reduce-valid-empty", "result valid (%d) for an empty collection with no zero" % e["v"], scn)
+                    break
+                continue
+            exp = want[max(x for x in want if x <= t)]
+            if (e["ok"], e["v"] if e["ok"] else 0) != (exp[0], exp[1] if exp[0] else 0):
+                chk.violation("reduce-fold", "cycle %d: Reduce.tla requires result %s, reduce produced %s"
+                              % (t, "invalid" if not exp[0] else exp[1], "invalid" if not e["ok"] else e["v"]), "# C11 reduce\n" + scn + "\n")
+                break
+        else:
+            # the result must have been observed in every cycle in which the collection changed
+            seen = {e["t"] for e in tr if e["e"] == "rrec"}
+            missing = [t for t in want if t not in seen]
+            if missing:
+                chk.violation("reduce-probe", "probe did not run in collection cycles %s" % missing, scn)
+    chk.coverage["traces_validated_against_impl"] += len(scns)
+    for k in (0, 1):
+        chk.sample({"scenario": scns[k].splitlines(), "required": preds[hists[k]["id"]]})
+    chk.coverage["rule"] = ("random histories of add / update / remove with several events per cycle, growth through the power-of-two capacities, "
+                            "shrink to empty and regrow, 2-20 keys; combiners add_ / min_ / max_ (library operators), a sub-graph combiner and a node "
+                            "combiner; zero absent / identity / non-identity (100, -7: exposes any involvement of the zero); the result is read in "
+                            "every cycle in which it or the collection ticks and must equal Reduce.tla's fold; distinct = distinct scenario text")
+
+
+CHECKS = {"C10": check_c10, "C11": check_c11, "C12": check_c12}
 
 
 def main():
